@@ -265,7 +265,8 @@ Proof.
     rewrite inbound_serial by lia. specialize (H k ltac:(lia)). lia. }
   rewrite Hall. eexists. split; [reflexivity|].
   assert (E : ein = sSI s N) by (unfold sSI; rewrite Nat.eqb_refl; reflexivity).
-  rewrite E at 2. rewrite pcost_true_sum by lia.
+  replace (pcost (s 1%nat) N s ein) with (pcost (s 1%nat) N s (sSI s N)) by (rewrite <- E; reflexivity).
+  rewrite pcost_true_sum by lia.
   apply qsum_map_ext. intros k Hk. apply in_seq in Hk. unfold net_lead_time. rewrite inbound_serial by lia.
   specialize (H k ltac:(lia)).
   replace (Z.to_nat (Z.of_nat (sSI s k) + Z.of_nat (T k) - Z.of_nat (s k))) with (sSI s k + T k - s k)%nat by lia.
